@@ -27,12 +27,12 @@ def make_beads(case):
     mefs = []
     means = []
     for c in range(nch):
-        m = r.uniform(0.9, 1.2); b = r.uniform(1, 5)
+        m = r.uniform(0.9, 1.2); b = r.uniform(case.get('b_min', 1), 5)
         top = 10 ** r.uniform(4.6, 5.1)                      # brightest bead in RFI
         rfi = [top / ratio ** (K - 1 - j) for j in range(K)]
         first = 1 if case['blank'] else 0
         E_dim = math.exp(b) * rfi[first] ** m                 # MEF + autofluorescence of the dimmest non-blank bead
-        af = r.uniform(0.05, 0.3) * E_dim                     # => af < half the dimmest non-blank MEF value
+        af = r.uniform(*case.get('af_frac', (0.05, 0.3))) * E_dim          # always below half the dimmest non-blank bead (MEF + autofluorescence)
         lad = [math.exp(b) * x ** m - af for x in rfi]
         if case['blank']:
             lad[0] = 0.0
@@ -94,6 +94,17 @@ class Prop(common.PropertyCheck):
         for K, sz, order in ((7, 500, 'grouped'), (8, 430, 'grouped_desc')):
             yield {'k': 'beads', 'K': K, 'nch': 2, 'sizes': [sz] * K, 'ratio': rng.uniform(2.5, 4.0), 'cv': rng.uniform(0.02, 0.05), 'blank': False, 'saturate': False,
                    'unknown': [], 'stat': 'median', 'clust': 'all', 'names': 'sorted', 'mef_form': 'lists', 'seed': rng.randrange(1 << 30), 'stream': 'main', 'order': order}
+        base_case = {'k': 'beads', 'K': 6, 'nch': 2, 'sizes': [450] * 6, 'ratio': 3.0, 'cv': 0.03, 'blank': False, 'saturate': False, 'unknown': [], 'stat': 'median',
+                     'clust': 'all', 'names': 'sorted', 'mef_form': 'lists', 'stream': 'main', 'order': 'shuffled'}
+        # a caller-owned 2-D table of manufacturer values reused across calls while a population is rejected at the detector limit
+        yield dict(base_case, mef_form='ndarray', saturate=True, K=7, sizes=[400] * 7, seed=rng.randrange(1 << 30))
+        # three clustering channels, subpopulations of more than 500 events, diagnostic plots on: same outcome as without plots
+        yield dict(base_case, nch=3, K=8, sizes=[620] * 8, plot=True, seed=rng.randrange(1 << 30))
+        # exactly three subpopulations left for the fit (brightest saturated, two values unknown)
+        yield dict(base_case, K=6, saturate=True, unknown=[(0, 1), (0, 3)], nch=1, seed=rng.randrange(1 << 30))
+        # corner of the envelope: tightly spaced populations, autofluorescence close to half the dimmest bead, large intercept, no blank
+        for _ in range(self.budget(2, 12)):
+            yield dict(base_case, ratio=rng.uniform(2.5, 2.8), af_frac=(0.42, 0.49), b_min=4.2, cv=0.02, nch=1, seed=rng.randrange(1 << 30))
         for i in range(n):
             K = rng.choice([6, 7, 8])
             equal = rng.random() < 0.6
@@ -137,10 +148,21 @@ class Prop(common.PropertyCheck):
             mv_arg = np.array([[np.nan if v is None else float(v) for v in l] for l in tr['mef_values']], dtype=np.float64)
             mv_saved = mv_arg.copy()
 
-        def run(clustering_fxn, data=d, seed=1):
+        def run(clustering_fxn, data=d, seed=1, plot=False):
             np.random.seed(seed)
-            return FlowCal.mef.get_transform_fxn(data, mv_arg, chans, clustering_fxn=clustering_fxn, clustering_channels=clch,
-                                                 statistic_fxn=statf, full_output=True)
+            kw = {}
+            if plot:
+                import tempfile
+                kw = {'plot': True, 'plot_dir': tempfile.mkdtemp(prefix='verif_c02_')}
+            try:
+                return FlowCal.mef.get_transform_fxn(data, mv_arg, chans, clustering_fxn=clustering_fxn, clustering_channels=clch,
+                                                     statistic_fxn=statf, full_output=True, **kw)
+            finally:
+                if plot:
+                    import shutil
+                    import matplotlib.pyplot as plt
+                    plt.close('all')
+                    shutil.rmtree(kw['plot_dir'], ignore_errors=True)
 
         def summarise(res):
             return {'labels': [int(x) for x in res.clustering['labels']],
@@ -206,6 +228,12 @@ class Prop(common.PropertyCheck):
             out['order_invariant'] = bool(closeb(s2c['rfi'], out['gmm']['rfi']) and s2c['mef'] == out['gmm']['mef'] and accuracy(r2c) <= 0.10)
         except Exception as e:
             out['gmm_err'] = type(e).__name__ + ':' + str(e)[:100]
+        if case.get('plot'):
+            try:
+                rp = run(lambda data, n, **kw: true_labels.copy(), plot=True)
+                out['plot_same'] = summarise(rp) == out['inj']
+            except Exception as e:
+                out['plot_same'] = 'err:' + type(e).__name__ + ':' + str(e)[:80]
         if mv_saved is not None:
             out['mef_table_unchanged'] = bool(np.array_equal(mv_arg, mv_saved, equal_nan=True))
         return out
@@ -257,6 +285,8 @@ class Prop(common.PropertyCheck):
                 problems.append('not reproducible for a fixed random seed')
             if impl['partition_recovered'] and not impl['order_invariant']:
                 problems.append('outcome depends on the order of events')
+        if impl.get('plot_same') not in (None, True):
+            problems.append('with the diagnostic plots switched on the statistics / selected pairs / fit differ from the run without plots (%s)' % impl['plot_same'])
         if impl.get('mef_table_unchanged') is False:
             problems.append("the caller's table of manufacturer values was overwritten (a later calibration with the same table would drop other subpopulations)")
         if problems:
